@@ -7,6 +7,7 @@ import (
 	"fmt"
 	"io"
 	"net/url"
+	"sort"
 	"strings"
 
 	"verifharness/mon"
@@ -388,8 +389,10 @@ func (c *c19ctx) readText(o c19Out, R []*ref.V, out string, piece bool) string {
 		}
 	case "xml":
 		dec := xml.NewDecoder(strings.NewReader(out))
-		var chars strings.Builder
-		depth := 0
+		// every scalar leaf must be there as an attribute value or as character data; attributes are
+		// written inside the start tag, so the order is not the document's: compared as multisets
+		var parts []string
+		depth, nattr := 0, 0
 		for {
 			tok, err := dec.Token()
 			if err == io.EOF {
@@ -401,17 +404,38 @@ func (c *c19ctx) readText(o c19Out, R []*ref.V, out string, piece bool) string {
 			switch t := tok.(type) {
 			case xml.StartElement:
 				depth++
+				for _, a := range t.Attr {
+					parts = append(parts, a.Value)
+					nattr++
+				}
 			case xml.EndElement:
 				depth--
 			case xml.CharData:
-				chars.WriteString(string(t))
+				if x := c19StripWS(string(t)); x != "" {
+					parts = append(parts, x)
+				}
 			}
 		}
 		if depth != 0 {
 			return "unbalanced XML elements"
 		}
-		if got, want := c19StripWS(chars.String()), strings.Join(texts, ""); got != want {
-			return fmt.Sprintf("XML character data is %q, expected the leaves %q", clipStr(got, 200), clipStr(want, 200))
+		if nattr == 0 {
+			// no attributes: the character data, in order, is exactly the leaves (top-level scalars are written without any separator)
+			if got, want := strings.Join(parts, ""), strings.Join(texts, ""); got != want {
+				return fmt.Sprintf("XML character data is %q, expected the leaves %q", clipStr(got, 200), clipStr(want, 200))
+			}
+			break
+		}
+		var wp []string
+		for _, x := range texts {
+			if x != "" {
+				wp = append(wp, x)
+			}
+		}
+		sort.Strings(parts)
+		sort.Strings(wp)
+		if got, want := strings.Join(parts, "\x00"), strings.Join(wp, "\x00"); got != want {
+			return fmt.Sprintf("XML attribute values and character data are %q, expected the leaves %q", clipStr(got, 200), clipStr(want, 200))
 		}
 	case "toml":
 		want := make([]string, len(R))
